@@ -1,6 +1,8 @@
 package main
 
 import (
+	"regexp"
+	"strconv"
 	"strings"
 
 	"golang.org/x/tools/go/ssa"
@@ -20,6 +22,8 @@ func init() {
 		Run:    c08,
 	})
 }
+
+var reHold = regexp.MustCompile(`^\((\d+) \+ p0\.maxDependencies\)$`)
 
 func c08(r *Run) {
 	w := r.W
@@ -90,7 +94,25 @@ func c08(r *Run) {
 	r.rule("C08.R3", "K6", "dependency counter protocol", 5)
 	rt1 := r.fn(w, "C08.R3", E+"runTask$1")
 	if run != nil {
-		addMax := findEffects(run, "call (*sync/atomic.Int64).Add(alloc(complit).dependencies, p0.maxDependencies)")
+		// the initial hold: dependencies.Add(H) with H derived from maxDependencies; it has to exceed the largest allowed
+		// number of dependencies, otherwise a task with exactly that many can reach zero before the final adjustment
+		var addMax []*effect
+		for _, e := range findEffects(run, "call (*sync/atomic.Int64).Add(alloc(complit).dependencies, *p0.maxDependencies*)") {
+			if !strings.HasPrefix(term(e.Ins.(ssa.CallInstruction).Common().Args[1]), "-") {
+				addMax = append(addMax, e)
+			}
+		}
+		hold := "p0.maxDependencies"
+		if len(addMax) == 1 {
+			hold = term(addMax[0].Ins.(ssa.CallInstruction).Common().Args[1])
+			above := false
+			if m := reHold.FindStringSubmatch(hold); m != nil {
+				if k, err := strconv.Atoi(m[1]); err == nil && k >= 1 {
+					above = true
+				}
+			}
+			r.check(above, "C08.R3", "Run:hold-exceeds-maxDependencies", r.at(w, addMax[0].Ins), hold, "the counter is held at "+hold+" while the task is enqueued: a task with exactly maxDependencies predecessors that all finish early reaches zero twice and runs twice")
+		}
 		firstLock := findEffects(run, "call (*sync.Mutex).Lock(*")
 		if len(addMax) == 1 && len(firstLock) > 0 {
 			okk := true
@@ -103,7 +125,7 @@ func c08(r *Run) {
 		} else {
 			r.missing("C08.R3", "Run:dependencies.Add(max)-before-registration", "t.dependencies.Add(e.maxDependencies) not found")
 		}
-		adj := "(*sync/atomic.Int64).Add(alloc(complit).dependencies, -(p0.maxDependencies - int64((ago/utils/set.Set).Len(alloc(dependencies)))))"
+		adj := "(*sync/atomic.Int64).Add(alloc(complit).dependencies, -(" + hold + " - int64((ago/utils/set.Set).Len(alloc(dependencies)))))"
 		sends := findEffects(run, "send *")
 		if len(sends) == 1 {
 			r.check(sends[0].Str == "send p0.executable <- alloc(complit)" && hasStr(sends[0].Conds(), adj+" <= 0") && hasStr(sends[0].Conds(), "!next(range(p1))#0"),
